@@ -17,10 +17,10 @@ LEVEL = "translation_validation"
 RULE = (
     "Hypothesis draws a geometry (cols 1-40 incl. 1, 8, 16, 20, 40; rows 1-4; parallel with/without rw and backlight_pin, or I2C) and 3-18 operations: write(col,row,"
     "text, clear_row, align), line(row, text, align, clear_row), message(top, bottom, aligns, clear_rows), clear(), progress(row, value, max, width in 1..cols+3 or "
-    "None, style, label) incl. increasing value runs, display/backlight/brightness, glyph(slot, 8 rows) incl. runs that alternate a pool of 2-3 bitmaps on 1-2 slots; texts are printable ASCII of length 0, < space, = space, > space "
+    "None, style, label) incl. increasing value runs, display/backlight/brightness (single and in runs of 3-5 that repeat the present state), glyph(slot, 8 rows) incl. runs that alternate a pool of 2-3 bitmaps on 1-2 slots; texts are printable ASCII of length 0, < space, = space, > space "
     "and > cols, given as literals or as run-time Strings read from the serial tape. After every operation both sides dump the display. Oracle: cell-for-cell "
     "equality with host LCD.dump() (rows touched by a progress bar whose value*width is not a multiple of max may differ by one fill cell), no out-of-window write "
-    "on the device, host rows keep length cols, progress fill monotone and saturating, backlight pin level == (on ? brightness : 0), createChar bytes == host "
+    "on the device, host rows keep length cols, progress fill monotone and saturating, backlight pin level == (on ? brightness : 0) on the device and in the host model's state, createChar bytes == host "
     "glyphs. Non-trivial = text >= available space, non-left alignment, clear_row=False over content, or a progress value off a cell boundary. distinct = distinct history."
 )
 ASSUMPTIONS = ["non-ASCII text and out-of-range row/col are outside the generated domain", "mock LiquidCrystal models the visible cols x rows window only (no DDRAM wrap-around)"]
@@ -45,6 +45,7 @@ def history(draw):
     nt = [0]
     k = [0]
     pool, slots, glyph_runs = [], [], [0]
+    power_runs = [0]
 
     def text(space):
         cls = draw(st.sampled_from(["empty", "short", "exact", "over", "long"]))
@@ -68,7 +69,7 @@ def history(draw):
         return a
 
     for j in range(draw(st.integers(3, 18))):
-        o = draw(st.sampled_from(["write", "write", "line", "line", "message", "clear", "progress", "progress_run", "display", "backlight", "brightness", "glyph", "glyph_run"]))
+        o = draw(st.sampled_from(["write", "write", "line", "line", "message", "clear", "progress", "progress_run", "display", "backlight", "brightness", "power_run", "glyph", "glyph_run"]))
         r = draw(st.integers(0, rows - 1))
         if o == "write":
             c = draw(st.integers(0, cols - 1))
@@ -121,6 +122,20 @@ def history(draw):
                 ops.append({"op": "progress", "row": r, "full": True, "v": v, "max": mx, "w": w, "style": style, "label": label, "exact": exact, "run": o == "progress_run"})
                 lines.append("mon.write('@@DUMP')")
             continue
+        elif o == "power_run":
+            # display power, backlight and brightness interleaved, incl. calls that repeat the present state: the backlight pin follows every one of them
+            for _ in range(draw(st.integers(3, 5))):
+                what = draw(st.sampled_from(["display", "display", "backlight", "backlight", "brightness"]))
+                if what == "brightness":
+                    if "bl" not in wiring:
+                        continue
+                    lines.append(f"lcd.brightness({draw(st.sampled_from([0, 1, 77, 128, 255]))})")
+                else:
+                    lines.append(f"lcd.{what}({draw(st.booleans())})")
+                ops.append({"op": what, "row": None, "full": False})
+                lines.append("mon.write('@@DUMP')")
+            power_runs[0] += 1
+            continue
         elif o in ("display", "backlight"):
             lines.append(f"lcd.{o}({draw(st.booleans())})")
             ops.append({"op": o, "row": None, "full": False})
@@ -145,7 +160,7 @@ def history(draw):
             lines.append(f"lcd.glyph({draw(st.integers(0, 7))}, {rowsv!r})")
             ops.append({"op": "glyph", "row": None, "full": False})
         lines.append("mon.write('@@DUMP')")
-    return {"src": "\n".join(lines) + "\n", "ops": ops, "serial": serial, "cols": cols, "rows": rows, "wiring": wiring, "nt": nt[0] > 0 or glyph_runs[0] > 0}
+    return {"src": "\n".join(lines) + "\n", "ops": ops, "serial": serial, "cols": cols, "rows": rows, "wiring": wiring, "nt": nt[0] > 0 or glyph_runs[0] > 0 or power_runs[0] > 0}
 
 
 def fw_dumps(trace):
@@ -198,7 +213,7 @@ def evaluate(case):
         if e[1] == "GLYPH":
             g.append((e[3], list(e[4])))
         elif e[1] == "LCD":
-            hdumps.append({"rows": e[3], "glyphs": g})
+            hdumps.append({"rows": e[3], "glyphs": g, "level": e[4] if len(e) > 4 else None})
             g = []
     ops = case["ops"]
     if len(fdumps) != len(ops) or len(hdumps) != len(ops):
@@ -274,6 +289,8 @@ def evaluate(case):
             want = st_b if st_on else 0
             if lvl[j] is not None and lvl[j] != want:
                 return "FAIL", [mk("backlight-pin-level", f"after `{ln}`: pin 44 at {want}", lvl[j])]
+            if j < len(hdumps) and hdumps[j].get("level") is not None and hdumps[j]["level"] != want:
+                return "FAIL", [mk("host-backlight-state", f"after `{ln}`: host model reports backlight {want} (brightness if on else 0)", hdumps[j]["level"])]
             j += 1
     return "ok", []
 
